@@ -24,6 +24,7 @@ CONFIGS = [('file', 'pickle', {}), ('dir', 'pickle', {}), ('file', 'json', dict(
            ('dir', 'pickle', dict(compression=3)), ('file', 'source', dict(serialized=False)), ('dir', 'source', dict(serialized=False)), ('dir', 'pickle', {})]
 KEYS = {'pickle': ['a', 'b', 'k1', 7, 'p-q', (1, 2)], 'json': ['a', 'b', 'k1', 'p-q'], 'source': ['a', 'b', 'k1', 7]}
 FKEYS = {'pickle': ['a', 'b', 'k1', 7, 'p-q', (1, 2)], 'json': ['a', 'b', 'k1', 'p-q'], 'source': ['a', 'b', 'k1', 7, (1, 2)]}
+LONGKEY = 'L' + 'o' * 231 + 'g'
 VALS = {'pickle': [1, 'v', (2, 3), [4], None, 2.5], 'json': [1, 'v', [4], None, 2.5], 'source': [1, 'v', (2, 3), [4], None, 2.5]}
 OPKINDS = ['set-new', 'set-over', 'set-over', 'del', 'pop', 'update', 'clear', 'popitem', 'setdefault-new', 'popkeys', 'dump', 'open', 'open-cached', 'del-missing']
 
@@ -34,8 +35,13 @@ def gen(tier, idx):
     keys = list((KEYS if kind == 'dir' else FKEYS)[codec]); r.shuffle(keys)
     vals = VALS[codec]
     nprior = r.choice([0, 1, 2, 3])
+    # stratum (every third dir_archive case): the entry operated on has a key of 233 characters - a legal file name with little room
+    # left for whatever a write protocol appends or prepends to it
+    longkey = kind == 'dir' and idx % 3 == 0
+    if longkey: keys = [LONGKEY] + keys; nprior = max(1, nprior) if (idx // 3) % 4 else 0
     prior = [(k, r.choice(vals)) for k in keys[:nprior]]
     present = [k for k, _ in prior]; absent = keys[nprior:]
+    if longkey and present: present = [LONGKEY]       # (the choices below fall on it)
     ok = OPKINDS[(idx // len(CONFIGS)) % len(OPKINDS)]
     newv = lambda old=None: r.choice([v for v in vals if v != old])
     if ok in ('set-over', 'del', 'pop', 'popitem', 'popkeys') and not present: ok = 'set-new'
